@@ -806,8 +806,11 @@ static void codec_dict(const uint64_t *vals, size_t n) {
         return;
     }
     /* withdict 0: one-shot encoder; 1: a fresh dictionary object; 2 / 3: a dictionary object that was first built for
-     * ANOTHER data set of a different index-width class (300 distinct values: 2-byte indices; 8 distinct: 1-byte) */
-    for (int withdict = 0; withdict < 4; withdict++) {
+     * ANOTHER data set of a different index-width class (300 distinct values: 2-byte indices; 8 distinct: 1-byte);
+     * 4 / 5: a dictionary object that was first built for - and queried about - a twin of this input with the SAME number
+     * of distinct values but narrower (the ranks 0..k-1) / wider (2^64-1-rank) entries: anything the object remembers
+     * about its previous contents under "same entry count" is stale */
+    for (int withdict = 0; withdict < 6; withdict++) {
         const char *eapi = withdict ? "dict.EncodeWithDict" : "dict.Encode";
         if (withdict >= 2 && n > 5000) {
             continue;
@@ -822,7 +825,44 @@ static void codec_dict(const uint64_t *vals, size_t n) {
             if (!d) {
                 continue;
             }
-            if (withdict >= 2) {
+            if (withdict >= 4) {
+                uint64_t *srt = malloc(8 * n), *tw = malloc(8 * n);
+                memcpy(srt, vals, 8 * n);
+                qsort(srt, n, 8, u64cmp_corpus);
+                size_t k = 0;
+                for (size_t i = 0; i < n; i++) {
+                    if (i == 0 || srt[i] != srt[k - 1]) {
+                        srt[k++] = srt[i];
+                    }
+                }
+                for (size_t i = 0; i < n; i++) {
+                    size_t lo = 0, hi = k;
+                    while (lo + 1 < hi) {
+                        size_t mid = (lo + hi) / 2;
+                        if (srt[mid] <= vals[i]) {
+                            lo = mid;
+                        } else {
+                            hi = mid;
+                        }
+                    }
+                    tw[i] = withdict == 4 ? (uint64_t)lo : UINT64_MAX - (uint64_t)lo;
+                }
+                int okp = varintDictBuild(d, tw, n) == 0;
+                if (okp) { /* every query a caller may make between the two builds */
+                    (void)varintDictEncodedSizeWithDict(d, n);
+                    (void)varintDictFind(d, tw[0]);
+                    (void)varintDictLookup(d, 0);
+                    uint8_t *scratch = malloc(20 * n + 64);
+                    (void)varintDictEncodeWithDict(scratch, d, tw, n);
+                    free(scratch);
+                }
+                free(srt);
+                free(tw);
+                if (!okp) {
+                    varintDictFree(d);
+                    continue;
+                }
+            } else if (withdict >= 2) {
                 static uint64_t prior[600];
                 size_t np = withdict == 2 ? 600 : 24, nd = withdict == 2 ? 300 : 8;
                 for (size_t i = 0; i < np; i++) {
